@@ -274,7 +274,19 @@ def check_translation(ctx):
         problems.append('no guarded numeric fallback')
     else:
         tr = other[0]
-        if [k(util.stmt_key(s)) for s in tr.body] != ['returnConstantTerm(float(%s.evalf()))' % tree]:
+        # what the fallback returns: the constant term of the node's own numeric value - float() of the node or of its plain evalf(),
+        # nothing that rounds, chops or rescales it
+        wrap_ = ast.FunctionDef(name='_fallback', args=ast.arguments(posonlyargs=[], args=[], kwonlyargs=[], kw_defaults=[], defaults=[]),
+                                body=tr.body, decorator_list=[], type_params=[])
+        defs_ = {n_: v_ for n_, v_ in util.single_defs(wrap_).items() if v_ is not None}
+        rets_ = [n_ for n_ in ast.walk(wrap_) if isinstance(n_, ast.Return)]
+        accepted = (tree, '%s.evalf()' % tree, 'sympy.N(%s)' % tree, 'sp.N(%s)' % tree)
+        for r_ in rets_:
+            v_ = util.inline(r_.value, defs_) if r_.value is not None else None
+            inner = v_.args[0] if isinstance(v_, ast.Call) and src(v_.func) == 'ConstantTerm' and len(v_.args) == 1 and not v_.keywords else None
+            if not (isinstance(inner, ast.Call) and src(inner.func) == 'float' and len(inner.args) == 1 and k(src(inner.args[0])) in accepted):
+                problems.append('a number becomes %s, not the constant term of its own value' % (src(v_) if v_ is not None else None))
+        if not rets_ or any(not isinstance(s_, (ast.Assign, ast.Return)) for s_ in tr.body):
             problems.append('fallback is %s' % [util.stmt_key(s) for s in tr.body])
         if not tr.handlers or not all(any(isinstance(x, ast.Raise) for x in h.body) and not any(isinstance(x, ast.Return) for x in ast.walk(h)) for h in tr.handlers):
             problems.append('a non-numeric node is not rejected')
